@@ -398,6 +398,20 @@ def run_case(case: Any) -> dict[str, Any]:
         out = os.path.join(workdir(), "tier_b_out.json")
         if os.path.exists(out):
             os.unlink(out)
+        if case.get("env_salt", 0) % 2:
+            # the user guide's spelling of the root component's type: a `!!python/name:` tag (resolved by the YAML loader, in a
+            # fresh process that has not imported the module yet)
+            rewritten = 0
+            for pth in paths:
+                full = pth if os.path.isabs(pth) else os.path.join(workdir(), pth)
+                text = open(full).read()
+                new_text = text.replace("type: verif_fixture_cli:Recorder", "type: !!python/name:verif_fixture_cli.Recorder").replace(
+                    "type: 'verif_fixture_cli:Recorder'", "type: !!python/name:verif_fixture_cli.Recorder")
+                if new_text != text:
+                    open(full, "w").write(new_text)
+                    rewritten += 1
+            if rewritten:
+                inc("tier_b_runs_with_the_type_given_as_a_python_name_tag")
         penv = {k: v for k, v in os.environ.items() if k not in ("ASPHALT_SERVICE", "VERIF_E1", "VERIF_UNSET", "VERIF_EMPTY", "VERIF_SPACED")}
         for k, v in env.items():
             if v is not None:
